@@ -18,6 +18,11 @@
   OBLIGATION c20_sound_unconditional_false
   OBLIGATION c20_exact_unconditional_false
   OBLIGATION c20_hypotheses_needed
+  OBLIGATION c20_declared_table_wf
+  OBLIGATION c20_sound_declared
+  OBLIGATION c20_exact_declared
+  OBLIGATION c20_witness_concrete_hint_lost
+  OBLIGATION c20_witness_merged_own_hint
 
   `c20_sound` and `c20_exact` were first written down without hypotheses (kept below as
   `c20_sound_unconditional`, `c20_exact_unconditional`); in that form they are FALSE of the model
@@ -41,6 +46,8 @@ import AGV.Lemmas.Cache
 import AGV.Lemmas.CacheCombine
 import AGV.Lemmas.CacheReach
 import AGV.Lemmas.CacheExact
+import AGV.Model.CacheDecl
+import AGV.Gen.C20Decl
 
 namespace AGV.Props.C20
 open AGV.Core AGV.Core.Cache AGV.Model.CacheControl AGV.Spec.Cache AGV.Spec.Exec AGV.Lemmas.Cache
@@ -362,6 +369,92 @@ theorem c20_hypotheses_needed :
     ((⟨"A", none⟩ : Key) ∈ reachRequest exS exDoc5 none [] 6 ∧
       ¬ noLooser (policy {} exS exH exDoc5 6) (hintOf exH ⟨"A", none⟩)) := by
   refine ⟨⟨⟨by decide, by decide, by decide⟩, by decide, by decide⟩, ⟨by decide, by decide⟩, ⟨by decide, by decide⟩⟩
+
+-- ------------------------------------------------------------------ the declared tables of the harness
+
+/-!  The correspondence compares the real responses with the hints DECLARED in the harness source
+     (hand-written tables next to the derive attributes; Gen/C20Decl.lean is generated from them and
+     the judge refuses every case whose schema or table is not one of these constants).  The
+     hypotheses `c20_sound` / `c20_exact` make about schema and hint table hold for every one of
+     them, so the theorems apply to exactly what is compared. -/
+
+open AGV.Gen.C20Decl in
+theorem wf_vSchema : WfSchema vSchema := ⟨by decide, by decide, by decide⟩
+
+open AGV.Gen.C20Decl in
+theorem wf_zooSchema : WfSchema zooSchema := ⟨by decide, by decide, by decide⟩
+
+/-- Every schema variant of the harness (v0..v3, the declaration zoo) is a well-formed schema and
+    every declared hint has max_age ≥ -1: the hypotheses of `c20_sound` and `c20_exact` on schema
+    and hint table. -/
+theorem c20_declared_table_wf (tag : String) (S : Schema) (H : Hints) (parts : List (String × CC))
+    (h : Gen.C20Decl.variant? tag = some (S, H, parts)) :
+    WfSchema S ∧ (∀ p ∈ H, -1 ≤ p.2.maxAge) := by
+  unfold Gen.C20Decl.variant? at h
+  split at h <;> first
+    | (cases h; exact ⟨wf_vSchema, by decide⟩)
+    | (cases h; exact ⟨wf_zooSchema, by decide⟩)
+    | cases h
+
+/-- `c20_sound` for what the harness compares: for every schema variant with its DECLARED hint
+    table and every well-formed document, the policy of the repaired visitor is no looser than the
+    declared hint of any object type or field the response can contain. -/
+theorem c20_sound_declared (tag : String) (S : Schema) (H : Hints) (parts : List (String × CC))
+    (h : Gen.C20Decl.variant? tag = some (S, H, parts))
+    (d : Doc) (opName : Option String) (raw : List (String × GValue)) (n : Nat) (hd : WfDoc S d) :
+    ∃ M, ∀ m ≥ M, ∀ k ∈ reachRequest S d opName raw n, noLooser (policy {} S H d m) (hintOf H k) :=
+  c20_sound S H d opName raw n (c20_declared_table_wf tag S H parts h).1 hd
+
+/-- `c20_exact` for what the harness compares -/
+theorem c20_exact_declared (tag : String) (S : Schema) (H : Hints) (parts : List (String × CC))
+    (h : Gen.C20Decl.variant? tag = some (S, H, parts))
+    (d : Doc) (raw : List (String × GValue)) (n : Nat) (hd : WfDoc S d) (hoo : objOnly S d n = true) :
+    ∃ M, ∀ m ≥ M, policy {} S H d m = combine ((reachRequest S d none raw m).map (hintOf H)) :=
+  c20_exact S H d raw n (c20_declared_table_wf tag S H parts h).1 hd hoo (c20_declared_table_wf tag S H parts h).2
+
+/-- `{ gsoa { x } }` on the zoo: `gsoa : GsOa!`, a concrete instantiation of a generic SimpleObject
+    declared `cache_control(private, max_age = 20)` -/
+def zooDocGs : Doc :=
+  { ops := [{ ty := .query, name := none, vars := [], dirs := [],
+              sels := [.field none "gsoa" [] [] [.field none "x" [] [] [] ⟨1, 10⟩] ⟨1, 3⟩] }], frags := [] }
+
+/-- the zoo table with the object-level hint of the concrete type `GsOa` lost (registered with the
+    default policy) -/
+def zooHintsLost : Hints := Gen.C20Decl.zooHints.filter (fun p => p.1 ≠ ⟨"GsOa", none⟩)
+
+/-- Why registry and declaration are compared: if a derive macro registers the concrete
+    instantiation `GsOa` with the default policy instead of its declared hint, the policy computed
+    for `{ gsoa { x } }` (public, max-age 900) is looser than the declared hint of `GsOa`
+    (private, 20), whose data the response contains; over the declared table it is not. -/
+theorem c20_witness_concrete_hint_lost :
+    WfDoc Gen.C20Decl.zooSchema zooDocGs ∧
+    (⟨"GsOa", none⟩ : Key) ∈ reachRequest Gen.C20Decl.zooSchema zooDocGs none [] 6 ∧
+    hintOf Gen.C20Decl.zooHints ⟨"GsOa", none⟩ = ⟨false, 20⟩ ∧
+    policy {} Gen.C20Decl.zooSchema zooHintsLost zooDocGs 6 = ⟨true, 900⟩ ∧
+    ¬ noLooser (policy {} Gen.C20Decl.zooSchema zooHintsLost zooDocGs 6) (hintOf Gen.C20Decl.zooHints ⟨"GsOa", none⟩) ∧
+    noLooser (policy {} Gen.C20Decl.zooSchema Gen.C20Decl.zooHints zooDocGs 6) (hintOf Gen.C20Decl.zooHints ⟨"GsOa", none⟩) := by
+  refine ⟨⟨id, by decide, by decide⟩, by decide, by decide, by decide, by decide, by decide⟩
+
+/-- `{ mo { p2n } }` on the zoo: `Mo` is `#[derive(MergedObject)] #[graphql(cache_control(private))]`
+    of parts declared max_age 70 and 80 -/
+def zooDocMo : Doc :=
+  { ops := [{ ty := .query, name := none, vars := [], dirs := [],
+              sels := [.field none "mo" [] [] [.field none "p2n" [] [] [] ⟨1, 8⟩] ⟨1, 3⟩] }], frags := [] }
+
+/-- pinned tree: `#[derive(MergedObject)]` never uses the merged object's own `cache_control(..)`;
+    the table it registers gives `{ mo { p2n } }` the policy (public, 70) although `Mo` is declared
+    private; registering what is declared (toggle off = the declared table itself) is sound here -/
+theorem c20_witness_merged_own_hint :
+    (⟨"Mo", none⟩ : Key) ∈ reachRequest Gen.C20Decl.zooSchema zooDocMo none [] 6 ∧
+    hintOf Gen.C20Decl.zooHints ⟨"Mo", none⟩ = ⟨false, 70⟩ ∧
+    policy {} Gen.C20Decl.zooSchema
+      (Model.CacheDecl.registered { mergedOwnHintIgnored := true } Gen.C20Decl.zooHints Gen.C20Decl.zooParts) zooDocMo 6 = ⟨true, 70⟩ ∧
+    ¬ noLooser (policy {} Gen.C20Decl.zooSchema
+      (Model.CacheDecl.registered { mergedOwnHintIgnored := true } Gen.C20Decl.zooHints Gen.C20Decl.zooParts) zooDocMo 6)
+      (hintOf Gen.C20Decl.zooHints ⟨"Mo", none⟩) ∧
+    (∀ H parts, Model.CacheDecl.registered {} H parts = H) ∧
+    policy {} Gen.C20Decl.zooSchema Gen.C20Decl.zooHints zooDocMo 6 = ⟨false, 70⟩ := by
+  refine ⟨by decide, by decide, by decide, by decide, fun _ _ => rfl, by decide⟩
 
 
 end AGV.Props.C20
